@@ -3,6 +3,7 @@ package main
 import (
 	"bytes"
 	"fmt"
+	"strings"
 	"math"
 
 	"github.com/willabides/rjson"
@@ -30,7 +31,7 @@ func (c12) Assumptions() []string {
 	return []string{"reduced scope: the Read* function of the same tree is the reference for what the reader accepts (C05/C04/C06/C13 own that); C12 decides only the store/no-store/offset behaviour around it"}
 }
 func (c12) Required(tier string) []string {
-	return []string{"T-prior", "null-with-nonzero-prior", "error-with-nonzero-prior", "success-overwrites-prior", "near-miss-null", "null-behind-whitespace", "dirty-scratch", "scratch-reused-across-decodes", "prefix-then-null", "prior-derived-from-the-input"}
+	return []string{"T-prior", "null-with-nonzero-prior", "error-with-nonzero-prior", "success-overwrites-prior", "near-miss-null", "null-behind-whitespace", "dirty-scratch", "scratch-reused-across-decodes", "prefix-then-null", "prior-derived-from-the-input", "input-in-a-read-buffer-with-stale-bytes-behind-it"}
 }
 
 var decodeFns = []string{"DecodeBool", "DecodeFloat64", "DecodeInt64", "DecodeInt32", "DecodeInt", "DecodeUint64", "DecodeUint32", "DecodeUint", "DecodeString"}
@@ -60,6 +61,18 @@ func genDecodeInput(r *Rand, fn string) Doc {
 		"9223372036854775807", "9223372036854775808", "-9223372036854775807", "-9223372036854775808", "-9223372036854775809",
 		"18446744073709551615", "18446744073709551616", "-18446744073709551615", "123456789012345678", "1234567890123456789", "12345678901234567890", "99999999999999999999",
 		"1.0", "1e0", "-0.0", "1e999", "-1e999", "0.5", "1e-400", "00", "-", "+1", "01", "1.", "1e", "0x10"}
+	if fn == "DecodeString" && r.Chance(1, 4) {
+		// short plain strings over Latin-1 / Latin Extended letters (two-byte UTF-8): many pairs differ in
+		// one bit of one byte, the neighbours of anything that packs or hashes string bytes
+		n := r.Range(1, 4)
+		var b bytes.Buffer
+		b.WriteByte('"')
+		for i := 0; i < n; i++ {
+			b.WriteString(string(rune(0xA0 + r.Intn(0x160))))
+		}
+		b.WriteByte('"')
+		return docOf(b.Bytes(), "accepted")
+	}
 	if fn == "DecodeString" && r.Chance(1, 3) {
 		// string tokens of 10 .. 5 000 content bytes (around 64 and powers of two), plain or with escapes,
 		// intact or with one raw control byte / a missing closing quote somewhere
@@ -119,7 +132,7 @@ func (c12) Gen(r *Rand, sc *Scenario, tier string) {
 	for i := 0; i < nops; i++ {
 		fn := decodeFns[r.Intn(len(decodeFns))]
 		sc.Docs = append(sc.Docs, genDecodeInput(r, fn))
-		op := Op{Kind: fn, Doc: i, B: r.Intn(41)}
+		op := Op{Kind: fn, Doc: i, B: r.Intn(41), A: b2i(r.Chance(1, 3))}
 		if r.Chance(1, 5) {
 			// T-prior, correlated: the target already holds something derived from the input that is
 			// about to be decoded (1 its raw text, 2 the very value, 3 the value with the other sign of zero / case)
@@ -148,9 +161,16 @@ func (c12) Exec(sc *Scenario, st *Stats) *Violation {
 		tg.f = math.Copysign(0, -1) // -0: a store of +0 is visible
 	}
 	var scratch []byte
+	// a read buffer the caller reuses: what lies behind the current input is whatever earlier, longer
+	// inputs left there (it starts out full of digits and literal fragments)
+	arena := []byte(strings.Repeat(`7654321098null,true"x"-0.5e3`, 12))
 	for oi, op := range sc.Tasks[0] {
 		d := sc.Docs[op.Doc]
 		data, ref := d.Bytes(), d.Bytes()
+		if op.A == 1 && len(d.Tail) == 0 && len(data)+16 <= len(arena) {
+			data = arena[:copy(arena, data)]
+			st.probe("input-in-a-read-buffer-with-stale-bytes-behind-it")
+		}
 		if op.C != 0 {
 			correlatePrior(tg, op.Kind, op.C, d.Bytes())
 			st.probe("prior-derived-from-the-input")
